@@ -283,7 +283,7 @@ func assistedViewChanges(t *rapid.T, w *sim.World, as int, rounds int) {
 			continue
 		}
 		if rapid.IntRange(0, 3).Draw(t, "avc-votes") > 0 {
-			w.Apply(sim.Action{K: "byz", Byz: &sim.ByzSpec{Strat: "votes", As: as, To: full, H: h, V: v, P: []int{rapid.IntRange(0, 1).Draw(t, "avc-proof")}}})
+			w.Apply(sim.Action{K: "byz", Byz: &sim.ByzSpec{Strat: "votes", As: as, To: full, H: h, V: v, P: []int{rapid.IntRange(0, 2).Draw(t, "avc-proof"), rapid.IntRange(0, 3).Draw(t, "avc-vote-block")}}})
 		}
 		w.Apply(sim.Action{K: "run", N: 100})
 		if rapid.IntRange(0, 3).Draw(t, "avc-follow") > 0 {
